@@ -34,6 +34,8 @@ pub struct RunCtx {
     pub index: u64,
     pub render: bool,
     pub verbose: bool,
+    /// upper bound on simulator steps for this run (minimiser: twice the steps of the original run)
+    pub step_cap: Option<u64>,
 }
 
 #[derive(Default)]
@@ -48,6 +50,7 @@ pub struct RunOut {
     pub trace: Vec<(&'static str, u32)>,
     pub states: Vec<u64>,
     pub overrun: usize,
+    pub steps: u64,
 }
 
 pub trait Scenario: Sync {
@@ -77,6 +80,7 @@ pub fn run_seed(batch_seed: u64, pid: &str, index: u64) -> u64 {
 }
 
 pub struct Failure {
+    pub steps: u64,
     pub index: u64,
     pub seed: u64,
     pub trace: Vec<(&'static str, u32)>,
@@ -157,7 +161,7 @@ pub fn run_batch(sc: &'static dyn Scenario, tier: Tier, batch_seed: u64, runs: u
                         break;
                     }
                     let seed = run_seed(batch_seed, sc.id(), i);
-                    let ctx = RunCtx { tier, index: i, render: false, verbose: false };
+                    let ctx = RunCtx { tier, index: i, render: false, verbose: false, step_cap: None };
                     let out = sc.run(seed, Chooser::from_seed(seed), &ctx);
                     local_done += 1;
                     local_sim += out.sim_ms;
@@ -180,7 +184,7 @@ pub fn run_batch(sc: &'static dyn Scenario, tier: Tier, batch_seed: u64, runs: u
                             None => s.failures.len() < 12,
                         };
                         if replace {
-                            s.failures.insert(key, Failure { index: i, seed, trace: out.trace, violation: v, log_hash: out.log_hash });
+                            s.failures.insert(key, Failure { steps: out.steps, index: i, seed, trace: out.trace, violation: v, log_hash: out.log_hash });
                         }
                     }
                     if local_done >= 64 {
@@ -218,8 +222,8 @@ pub fn run_batch(sc: &'static dyn Scenario, tier: Tier, batch_seed: u64, runs: u
     }
 }
 
-fn fails_same(sc: &dyn Scenario, tier: Tier, seed: u64, index: u64, values: &[u32], oracle: &str, signature: &str) -> bool {
-    let ctx = RunCtx { tier, index, render: false, verbose: false };
+fn fails_same(sc: &dyn Scenario, tier: Tier, seed: u64, index: u64, values: &[u32], oracle: &str, signature: &str, step_cap: Option<u64>) -> bool {
+    let ctx = RunCtx { tier, index, render: false, verbose: false, step_cap };
     let out = sc.run(seed, Chooser::from_trace(seed, values.to_vec()), &ctx);
     match out.violation {
         Some(v) => v.oracle == oracle && v.signature == signature,
@@ -239,7 +243,7 @@ pub fn minimise(sc: &dyn Scenario, tier: Tier, f: &Failure, max_execs: usize, ma
             return false;
         }
         *execs += 1;
-        fails_same(sc, tier, f.seed, f.index, cand, oracle, &sig)
+        fails_same(sc, tier, f.seed, f.index, cand, oracle, &sig, Some(f.steps * 2 + 1000))
     };
     // sanity: the recorded trace must reproduce
     if !try_cand(&best, &mut execs) {
@@ -320,7 +324,7 @@ pub fn trace_json(trace: &[(&'static str, u32)]) -> J {
 pub fn write_replay(sc: &dyn Scenario, tier: Tier, f: &Failure, dir: &str, minimise_budget: (usize, u64)) -> (String, J) {
     let (min_values, execs) = minimise(sc, tier, f, minimise_budget.0, minimise_budget.1);
     // final rendering run with the minimised trace
-    let ctx = RunCtx { tier, index: f.index, render: true, verbose: false };
+    let ctx = RunCtx { tier, index: f.index, render: true, verbose: false, step_cap: Some(f.steps * 2 + 1000) };
     let out = sc.run(f.seed, Chooser::from_trace(f.seed, min_values.clone()), &ctx);
     let (viol, min_ok) = match &out.violation {
         Some(v) if v.oracle == f.violation.oracle && v.signature == f.violation.signature => (v.clone(), true),
@@ -367,7 +371,7 @@ pub fn replay_file(sc: &dyn Scenario, path: &str) -> Result<ReplayOutcome, Strin
         .iter()
         .map(|e| e.as_arr().and_then(|a| a.get(1)).and_then(|v| v.as_i64()).unwrap_or(0) as u32)
         .collect();
-    let ctx = RunCtx { tier, index, render: true, verbose: true };
+    let ctx = RunCtx { tier, index, render: true, verbose: true, step_cap: None };
     let out = sc.run(seed, Chooser::from_trace(seed, values), &ctx);
     let want_hash = doc.get("log_hash").and_then(|h| h.as_str()).unwrap_or("");
     let got_hash = format!("{:016x}", out.log_hash);
